@@ -44,6 +44,26 @@ def bounded_recheck(unit, units, outdir):
     BCAP = int(unit.get('triage_cap', 4))
     """contract without loop contracts, capacity BCAP, unwinding; returns (verdict, log)"""
     has_ghost = any(k.startswith('ghost ') for k in unit['sections'])
+    if unit.get('abstract') == 'sizes':
+        # size/witness abstraction with invariant-abstracted loops: re-check with the loops AS LOOPS (no invariant of mine involved),
+        # explored up to a small unwinding bound without unwinding assertions -- a counterexample found this way is a real path of
+        # the abstraction; none found means undecided
+        u = dict(unit)
+        u['sz_concrete_loops'] = True
+        for k_ in [k_ for k_ in u if k_.startswith('sz_loop_inv')]:
+            u.pop(k_)
+        try:
+            b = driver.build_c(u, units, outdir)
+        except (ExtractionBreak, specmod.SpecError) as e:
+            return 'undecided', 'bounded build failed: %s' % e
+        inst, err = driver.instrument(u, units, b, outdir, tag='.bounded')
+        if err:
+            return 'undecided', err
+        flags = driver.check_flags(u) + ['--unwind', '4', '--no-unwinding-assertions', '--object-bits', '12', '--trace']
+        r = driver.run_cbmc(inst['gb'], flags, [], timeout=600)
+        if r['verdict'] == 'refuted' and not [k for k, v in r['results'].items() if v[0] == 'FAILURE' and '.unwind.' not in k]:
+            return 'undecided', 'bounded re-check: only unwinding assertions fail\n' + r['out'][-3000:]
+        return r['verdict'], r['out']
     for drop_ghost in (False, True):
         u = dict(unit)
         u['sections'] = {k: v for k, v in unit['sections'].items() if not k.startswith('loop ') and not (drop_ghost and k.startswith('ghost '))}
@@ -93,7 +113,7 @@ def triage(unit, units, res, prop, tier='quick'):
     outdir = os.path.join(driver.WORK, 'units', unit['name'], 'triage')
     shutil.rmtree(outdir, ignore_errors=True)
     os.makedirs(outdir, exist_ok=True)
-    has_loops = any(k.startswith('loop ') for k in unit['sections'])
+    has_loops = any(k.startswith('loop ') for k in unit['sections']) or (unit.get('abstract') == 'sizes' and any(k.startswith('sz_loop_inv') for k in unit))
     verdict = blog = None
     log = ''
     if res.get('cbmc_log') and os.path.exists(res['cbmc_log']):
@@ -153,6 +173,6 @@ def triage(unit, units, res, prop, tier='quick'):
         if nat and nat.get('file'):
             # one replay artefact: the native reproduction, followed by the verifier's side
             open(nat['file'], 'a').write('\n\n==== verifier side ====\n' + open(path).read())
-        return {'verdict': 'violation', 'replay': (nat or {}).get('file') or path, 'failing_input': True, 'reason': 'refuted; bounded re-check gives a counterexample'}
+        return {'verdict': 'violation', 'replay': (nat or {}).get('file') or path, 'failing_input': not unit.get('abstract'), 'reason': 'refuted; bounded re-check gives a counterexample'}
     path = write_replay(prop, unit, res, 'bounded re-check gave no verdict:\n' + blog[-8000:])
     return {'verdict': 'undecided', 'replay': path, 'reason': 'refuted under loop contracts, bounded re-check undecided'}
